@@ -35,7 +35,18 @@ RULE = ("static: one table row per read/write site of every package-level variab
 META = {
     "technique": "translator (go/types) -> generated Lean access table, kernel-evaluated lock discipline + general lock-semantics "
                  "theorem; cross-checked by a -race stress run with atomic-switch oracles",
-    "level_text": "proof",
+    "level_text": ("Translator-backed proof. On every run go/cmd/extract15 (go/parser + go/types, fails closed) regenerates from the current "
+                   "source an access table: every read/write of the package-level rule maps, caches and listener slices of api and core/* "
+                   "(classified by object class G / G[*] / G[*][*], with local aliases followed), the mutexes provably held there, every "
+                   "sync/atomic field with all its plain uses, nested lock acquisitions and the lock sections of every slot phase and "
+                   "Load*/Clear* function. Lean then re-proves by kernel evaluation on that table: table_disciplined (conflicting accesses "
+                   "share a mutex, write mode for writes), atomics_never_mixed, lock_order_acyclic, slots_single_snapshot, "
+                   "extractor_understood_everything; and, once and for all, discipline_implies_exclusion (reader-writer lock trace semantics: "
+                   "two accesses holding a common mutex, one in write mode, are never concurrent) and switch_is_atomic / switch_independent "
+                   "(one snapshot per phase => a request sees the old or the new rule list; other resources unaffected). A changed lock, a "
+                   "second snapshot or a new plain access breaks the build of Sentinel.Props.C15 and the failing rows are the replay. The "
+                   "table is cross-checked dynamically by a generated stress program under the race detector (every report must match a "
+                   "flagged row) with old-or-new and independence oracles."),
     "level_note": "data-race freedom is proved for the extracted access discipline of package-level state (and atomic-field "
                   "discipline), not for arbitrary heap aliasing; the Go memory model is represented by the reader-writer lock "
                   "trace semantics; schedules are additionally sampled under the race detector",
